@@ -611,14 +611,21 @@ def run_history(hist: list, meta: str = "none") -> list[str]:
         (out_parent / "sibling.txt").write_text("do not touch")
         target_name = "client_pkg"
         user_files: dict[str, bytes] = {}
+        last_pkg = None
         for step, (dk, overwrite, user) in enumerate(hist):
             target = out_parent / target_name
             if user and target.exists():
                 uf = (target / "models" / "my_notes.txt") if (target / "models").exists() and step % 2 else (target / "USER_FILE.md")
                 uf.write_bytes(b"user data %d" % step)
+                if last_pkg is not None and last_pkg.exists():
+                    # the user's own module and sub-package next to client.py (inside the package, outside models/ and api/)
+                    (last_pkg / "user_helpers.py").write_bytes(b"user data helpers %d" % step)
+                    (last_pkg / "custom_user").mkdir(exist_ok=True)
+                    (last_pkg / "custom_user" / "auth.py").write_bytes(b"user data auth %d" % step)
             before = _tree(out_parent)
             existed = target.exists()
             errs, pdir = gen.generate(docs[dk], out_parent, target_name, meta=meta, overwrite=overwrite)
+            last_pkg = pdir if pdir is not None and pdir.exists() else last_pkg
             after = _tree(out_parent)
             outside = {k for k in set(before) | set(after) if not k.startswith(target_name + "/") and before.get(k) != after.get(k)}
             if outside:
